@@ -412,6 +412,8 @@ def run(rep, tier):
         # a malformed \\u escape must be rejected or it swallows the sentinel quote: the encoder's range test (shared with C05)
         from . import c05 as _c05
         _c05.clause_c(facts, rep, tier)
+        # ... and a raw control byte must stop the string scanner before it steps over the closing quote / the sentinel
+        _c05.clause_e(facts, rep, ('::avx2::',) if cfg in ('K1', 'K2', 'K7') else ('::sse::',) if cfg == 'K3' else ('::avx2::', '::sse::'))
         c16.round_up_rule(facts, rep)      # ... and the rounded size is never below the request
     rep.min_instances('E1.status', 20)
     rep.trust('clang 14 parser/template instantiation/CFG builder', 'sv/primitives.py load widths',
